@@ -3,7 +3,7 @@ import ast
 
 from ..core import AnalysisError, dotted, call_name, src, walk_local, const_value
 from ..flow import edge_facts
-from ..rules import flow_of, inline_helpers, calls_in, bind_args, canon, facts_at, cmp_norm, state_writes, region, who_calls
+from ..rules import flow_of, inline_helpers, calls_in, bind_args, canon, facts_at, cmp_norm, state_writes, region, who_calls, emptiness
 from ..booltable import compare
 
 EXPLANATION = ("StochasticNetwork: by enumeration of every path through plugin, each path performs exactly one placement - super().plugin(ev) "
@@ -63,9 +63,7 @@ def rule_plugin(ck):
         ok = bool(ups) and canon(fl.expand(ups[-1][1].args[0], ups[-1][0])) == "random.choice(self.available_evses())"
         ck.require(ok, "C19.R2", f, ups[-1][1] if ups else c, ok="station drawn by random.choice from the free stations, recorded on the EV before connecting",
                    bad="the EV's station is not set to random.choice(self.available_evses()) before it is connected", sink="plugin:choice")
-        fs = [cmp_norm(fl.expand(a, n), t) for a, t in facts_at(fl, n)]
-        ok = any(c_ and c_[1] == "<" and canon(c_[0]) == "0" and canon(c_[2]) == "len(self.available_evses())" for c_ in fs) or \
-            any(canon(a) == "self.available_evses()" and t for a, t in [(fl.expand(a, n), t) for a, t in facts_at(fl, n)])
+        ok = emptiness(fl, n, "self.available_evses()") == "nonempty"
         ck.require(ok, "C19.R2", f, c, ok="connects only when a free station exists", bad="super().plugin is not guarded by `a free station exists`", sink="plugin:free-guard")
     for n in enq:
         s = n.stmt
@@ -74,10 +72,7 @@ def rule_plugin(ck):
         ups = [(nn, cc) for nn, cc in calls_in(fl, "update_station_id") if cfg.dominates(nn, n) and dotted(cc.func.value) == ev]
         ok = bool(ups) and isinstance(ups[-1][1].args[0], ast.Constant) and ups[-1][1].args[0].value is None
         ck.require(ok, "C19.R1", f, ups[-1][1] if ups else s, ok="a waiting EV has no station", bad="a queued EV keeps a station id", sink="plugin:enqueue-station")
-        fs = [cmp_norm(fl.expand(a, n), t) for a, t in facts_at(fl, n)]
-        ok = any(c_ and c_[1] == "<=" and canon(c_[2]) == "0" and canon(c_[0]) == "len(self.available_evses())" for c_ in fs) or \
-            any(c_ and c_[1] == "==" and {canon(c_[0]), canon(c_[2])} == {"0", "len(self.available_evses())"} for c_ in fs) or \
-            any(canon(fl.expand(a, n)) == "self.available_evses()" and not t for a, t in facts_at(fl, n))
+        ok = emptiness(fl, n, "self.available_evses()") == "empty"
         ck.require(ok, "C19.R2", f, s, ok="queued exactly when no station is free", bad="an EV is queued although the `no free station` condition is not established", sink="plugin:enqueue-guard")
     # available_evses
     av = repo.fn("StochasticNetwork.available_evses")
@@ -145,12 +140,11 @@ def rule_unplug(ck):
                        sink=f"unplug:after-pop:{what}")
         ck.require(bool(ups) and bool(plg) and all(cfg.dominates(u, p) for u in ups for p in plg), "C19.R4", f, st, ok="station id set before connecting", bad="the dequeued EV is connected before its station id is set",
                    sink="unplug:order")
-        vac = [nn for nn, cc in calls_in(fl, "unplug") if canon(cc.func.value) == f"self._EVSEs[{sid}]"]
+        vac = [nn for nn, cc in calls_in(fl, "unplug") if canon(fl.expand(cc.func.value, nn)) == f"self._EVSEs[{sid}]"]
         ck.require(bool(vac) and any(cfg.dominates(v, n) for v in vac), "C19.R4", f, c, ok="only after this station was vacated on this path",
                    bad="an EV is dequeued on a path where the station was not just vacated: two EVs on one station", sink="unplug:vacated")
         fs = [cmp_norm(fl.expand(a, n), t) for a, t in facts_at(fl, n)]
-        ok = any(c_ and c_[1] == "<" and canon(c_[0]) == "0" and canon(c_[2]) == "len(self.waiting_queue)" for c_ in fs) or \
-            any(canon(a) == "self.waiting_queue" and t for a, t in facts_at(fl, n))
+        ok = emptiness(fl, n, "self.waiting_queue") == "nonempty"
         ck.require(ok, "C19.R4", f, c, ok="only when someone is waiting", bad="popitem on a possibly empty queue", sink="unplug:nonempty")
         ok = any(c_ and c_[1] == "==" and {canon(c_[0]), canon(c_[2])} == {sess, f"self._EVSEs[{sid}].ev.session_id"} for c_ in fs)
         ck.require(ok, "C19.R4", f, c, ok="only when the departing session is the one on the station", bad="the swap is not conditional on the session id matching the station's EV", sink="unplug:session-match")
